@@ -7,6 +7,7 @@ from vf.instrument import StepLog
 from vf.problems import Manufactured, Scaled, LateBump, QuietBump, dtype_of, rng_for
 
 LEVEL = "exploration"
+NO_PROGRESS_IS_VIOLATION = True   # the statement promises returned states in both directions of time: a loop that cannot end refutes it
 RULE = ("one case = (adaptive method or Richardson wrapper, problem class+seed, tolerance decade, direction, initial-dt class); the run's "
         "recorded states are compared with the exact solution in units of (atol+rtol|y|) (contractive problems: amplification ~1); the "
         "step() wrapper logs every attempt and consecutive attempts from the same state must strictly shrink after a controller "
@@ -127,6 +128,15 @@ def gen_cases(tier, seed):
                 frac = float(rng.choice([1e-2, 0.3, 3.0]))
                 cases.append(dict(kind="tol", method=name, rich=n, problem="ms", dim=2, rtol=rt, atol=rt * 0.1, t0=t0, tf=t0 + d * span,
                                   dt=frac * span, dtfrac=frac, pseed=int(rng.integers(1 << 30)), cost=10 * n))
+    # Richardson wrappers of bases flagged symplectic take their own step-size branch (doubling/halving only): both directions
+    for name in ["ImplicitMidpoint"]:
+        for r in range(2 if tier == "quick" else 6):
+            d = 1 if r % 2 == 0 else -1
+            rt = 10 ** float(rng.uniform(-6, -4))
+            span = float(rng.uniform(0.6, 1.2))
+            t0 = float(rng.uniform(-4, 4))
+            cases.append(dict(kind="tol", method=name, rich=3, problem="ms", dim=2, rtol=rt, atol=rt * 0.1, t0=t0, tf=t0 + d * span,
+                              dt=0.05 * span, dtfrac=0.05, pseed=int(rng.integers(1 << 30)), cost=120))
     # tolerances that cannot be met
     # (order >= 10 pairs are left out: next to a singularity their estimator is outside its asymptotic regime - a property of the pair, not of the code)
     for name in (["RK45CKSolver", "DOPRI45", "RK8713MSolver", "RadauIIA5", "HeunEulerSolver", "LobattoIIIC4"] if tier == "quick" else [n for n in adaptive if M[n]["order"] < 10]):
